@@ -150,6 +150,10 @@ def run(ctx):
     results = gwrun.run_many(jobs)
     gwrun.close_pool()
     distinct = gwrun.dedupe(results)
+    nhang = sum(1 for r in distinct if "harness_hang" in r)
+    if nhang > 3:
+        ctx.machinery(f"{nhang} simulated runs hung")
+    distinct = [r for r in distinct if "harness_hang" not in r]
     herr = [r for r in distinct if "harness_error" in r]
     if herr:
         ctx.machinery(herr[0]["harness_error"][-1200:])
